@@ -10,9 +10,9 @@ use lc3_ensemble::sim::{InternalRegister, MemAccessCtx, SimFlags, Simulator};
 use std::sync::{Arc, Mutex, OnceLock};
 
 #[derive(Clone, Copy, Debug)]
-enum Op { Load, Step, Run3, ToggleStrict, ToggleReal, ToggleIgnore, ToggleFrames, BpInsertPc, BpInsertReg, BpRemovePc, AddDev, RemoveDev3, SetKb, SetDisp, MmapPc, MunmapPc, WriteReg, WriteMem, WritePsr, TypeKey, Reset, MunmapPsr, MunmapMcr, SetInit, Deep, MmapOverDev }
-const OPS: [Op; 26] = [Op::Load, Op::Step, Op::Run3, Op::ToggleStrict, Op::ToggleReal, Op::ToggleIgnore, Op::ToggleFrames, Op::BpInsertPc, Op::BpInsertReg, Op::BpRemovePc,
-    Op::AddDev, Op::RemoveDev3, Op::SetKb, Op::SetDisp, Op::MmapPc, Op::MunmapPc, Op::WriteReg, Op::WriteMem, Op::WritePsr, Op::TypeKey, Op::Reset, Op::MunmapPsr, Op::MunmapMcr, Op::SetInit, Op::Deep, Op::MmapOverDev];
+enum Op { Load, Step, Run3, ToggleStrict, ToggleReal, ToggleIgnore, ToggleFrames, BpInsertPc, BpInsertReg, BpRemovePc, AddDev, RemoveDev3, SetKb, SetDisp, MmapPc, MunmapPc, WriteReg, WriteMem, WritePsr, TypeKey, Reset, MunmapPsr, MunmapMcr, SetInit, Deep, MmapOverDev, /** another holder of the shared MCR handle switches the machine on (what a front end does before it starts a run) */ McrOn }
+const OPS: [Op; 27] = [Op::Load, Op::Step, Op::Run3, Op::ToggleStrict, Op::ToggleReal, Op::ToggleIgnore, Op::ToggleFrames, Op::BpInsertPc, Op::BpInsertReg, Op::BpRemovePc,
+    Op::AddDev, Op::RemoveDev3, Op::SetKb, Op::SetDisp, Op::MmapPc, Op::MunmapPc, Op::WriteReg, Op::WriteMem, Op::WritePsr, Op::TypeKey, Op::Reset, Op::MunmapPsr, Op::MunmapMcr, Op::SetInit, Op::Deep, Op::MmapOverDev, Op::McrOn];
 
 fn program() -> &'static ObjectFile {
     static P: OnceLock<ObjectFile> = OnceLock::new();
@@ -64,6 +64,7 @@ fn apply(w: &mut World, op: Op) -> Result<(), (String, String)> {
         // scale: 300 nested calls that have not returned (a JSR-to-next sled at x6000), left live
         Op::Deep => { for a in 0x6000..0x6200u16 { w.sim.mem[a].set(0x4800); } w.touched.extend(0x6000..0x6200); w.sim.pc = 0x6000; let _ = w.sim.run_with_limit(300); }
         Op::MmapOverDev => { if w.sim.mmap_internal(0xFE20, InternalRegister::PC).is_ok() { w.over_mapped = true; } }
+        Op::McrOn => { w.sim.mcr().store(true, std::sync::atomic::Ordering::Relaxed); }
         Op::Reset => return reset_and_check(w),
     }
     Ok(())
@@ -108,6 +109,8 @@ fn reset_and_check(w: &mut World) -> Result<(), (String, String)> {
     let exp_probe = if w.psr_mapped { w.sim.psr().get() } else { 0 };
     if psr_probe != exp_probe { return Err(("internal-mapping-changed".into(), format!("reading xFFFC gives x{psr_probe:04X} after reset, expected x{exp_probe:04X} (PSR mapping present before reset: {})", w.psr_mapped))); }
     if !w.mcr_mapped {
+        // (the handle may have been switched on by its other holder: the probe starts from "off")
+        w.sim.mcr().store(false, std::sync::atomic::Ordering::Relaxed);
         let _ = w.sim.write_mem(0xFFFE, Word::new_init(0x8000), MemAccessCtx { privileged: true, strict: false, io_effects: true, track_access: false });
         if w.sim.mcr().load(std::sync::atomic::Ordering::Relaxed) { return Err(("internal-mapping-changed".into(), "the MCR mapping at xFFFE was removed before reset but a store to xFFFE sets the MCR again".into())); }
     }
@@ -135,6 +138,7 @@ fn fingerprint(w: &mut World) -> u64 {
     h = mix(h, w.sim.frame_stack.len() << 8 | (w.sim.frame_stack.frames().is_some() as u64) << 4 | (w.sim.hit_halt() as u64) << 1 | w.sim.hit_breakpoint() as u64);
     for a in device_answers(w) { h = mix(h, a as u64); }
     for a in [0x3000u16, 0x3005, 0x300B, 0x300C, 0x300D, 0x3FFF, 0x5000, 0x0200, 0x2FFF, 0x2FFE, 0x2FFD] { h = mix(h, w.sim.mem[a].get() as u64 | (w.sim.mem[a].is_init() as u64) << 16); }
+    h = mix(h, w.sim.mcr().load(std::sync::atomic::Ordering::Relaxed) as u64 + 31);
     if let Some(kb) = &w.kb { h = mix(h, kb.get_buffer().read().unwrap_or_else(|e| e.into_inner()).len() as u64 + 77); }
     // reference-side state
     mix(h, (w.rec_attached as u64) | (w.pc_mapped as u64) << 1 | (w.psr_mapped as u64) << 2 | (w.mcr_mapped as u64) << 3 | (w.over_mapped as u64) << 4)
@@ -154,7 +158,7 @@ fn visit_with(h: &[u16], init: MachineInitStrategy) -> Visit {
 fn case_of(h: &[u16]) -> String { h.iter().map(|x| x.to_string()).collect::<Vec<_>>().join(",") }
 
 pub fn run(ctx: &Ctx) -> Report {
-    let mut rep = Report::new("explicit-state BFS over histories of 26 operations (map the PC register at the address that is also the recording device's port; 300 nested calls left live; switch machine_init between two deterministic strategies; load a program with calls, traps and I/O; step_in; run_with_limit(3); toggle strict / real traps / ignore privilege / debug frames; insert/remove PC and register breakpoints; add/remove a recording device; replace keyboard and display; map/unmap the PC register; unmap the default PSR and MCR mappings; host writes to a register, memory (user and OS), PSR and saved SP; type a key; reset) with reset() appended after EVERY prefix: all of 64K non-I/O memory, registers, PC, PSR, saved SP, frame depth/frames presence, instruction count and pause status must equal Simulator::new(same flags); flags, breakpoint set, MCR handle (Arc::ptr_eq), device handler (derived Debug), internal mappings and device dispatch must be kept. Known{x1357} (complete BFS) and Seeded{99} (same histories). non-trivial = states at depth >= 1");
+    let mut rep = Report::new("explicit-state BFS over histories of 27 operations (the shared MCR handle switched on by its other holder; map the PC register at the address that is also the recording device's port; 300 nested calls left live; switch machine_init between two deterministic strategies; load a program with calls, traps and I/O; step_in; run_with_limit(3); toggle strict / real traps / ignore privilege / debug frames; insert/remove PC and register breakpoints; add/remove a recording device; replace keyboard and display; map/unmap the PC register; unmap the default PSR and MCR mappings; host writes to a register, memory (user and OS), PSR and saved SP; type a key; reset) with reset() appended after EVERY prefix: all of 64K non-I/O memory, registers, PC, PSR, saved SP, frame depth/frames presence, instruction count and pause status must equal Simulator::new(same flags); flags, breakpoint set, MCR handle (Arc::ptr_eq), device handler (derived Debug), internal mappings and device dispatch must be kept. Known{x1357} (complete BFS) and Seeded{99} (same histories). non-trivial = states at depth >= 1");
     let depth = ctx.pick(4usize, 7usize);
     let known = MachineInitStrategy::Known { value: 0x1357 };
     let (states, transitions, frontier, per_depth, capped) = bfs_hist(ctx, &mut rep.acc, OPS.len(), depth, &|h| format!("k:{}", case_of(h)), |h| visit_with(h, known));
